@@ -378,6 +378,78 @@ def r7(ctx, prog):
         raise AnalysisBroken('expected >= 2 deferred TimerEvent deletes in TimerPool (cancel, cleanup), found %d' % n)
 
 
+def r8(ctx, prog):
+    ctx.rule('C02.R8', 'A10 repeat-count protocol by finite simulation: the two tests of Timer::repeat in handleExpiredTimers (remove the timer / count down) are folded for '
+             'repeat = 0..3 and the firing sequence is replayed — a timer added with repeat r >= 1 is invoked exactly r times and then removed, repeat 0 is never '
+             'removed; TimerEventImpl::enable() passes the value with "exactly one invocation" for a one-shot and the "never removed" value for a persistent timer', floor=3)
+    f = prog.fn1(CL + '::handleExpiredTimers')
+    rep = lambda sx: sx['k'] == 'MemberExpr' and sx.get('n') == 'repeat'
+    frees = [c for c in f.calls() if c.get('fn') == 'free' and c.get('obj') is not None and (f.field_of(c['obj']) or '').endswith('timer_cabinet_')]
+    decs = [st for st in f.stmts if st and st['k'] == 'UnaryOperator' and st.get('op') == '--' and (f.field_of(st['ch'][0]) or '').endswith('Timer::repeat')]
+    if not frees or not decs:
+        raise AnalysisBroken('handleExpiredTimers: removal (timer_cabinet_.free) / repeat count-down not found (%d/%d)' % (len(frees), len(decs)))
+
+    def guard_fn(stmt):
+        conds = [(c, k) for c, k, b in f.cfg.controlling_branches(q.pt_or_term(f, stmt)) if any(rep(f.stmts[x]) for x in f.walk(c))]
+        def holds(r):
+            for c, k in conds:
+                v = q.eval_expr(f, c, lambda sx, r=r: r if rep(sx) else None)
+                if v is None:
+                    return None
+                if bool(v) != (k == 0):
+                    return False
+            return True
+        return holds, conds
+    removed, c1 = guard_fn(frees[0])
+    counted, c2 = guard_fn(decs[0])
+    if not c1:
+        raise AnalysisBroken('handleExpiredTimers: the removal is not under a test of repeat')
+
+    def firings(r0):
+        r, n = r0, 0
+        while n < 8:
+            n += 1
+            rm = removed(r)
+            if rm is None:
+                return None
+            if rm:
+                return n
+            cd = counted(r)
+            if cd is None:
+                return None
+            if cd:
+                r -= 1
+                if r < 0:
+                    return -1
+        return 99       # not removed within 8 firings
+    res = {r: firings(r) for r in range(0, 4)}
+    ok = res[0] == 99 and all(res[r] == r for r in (1, 2, 3))
+    ctx.ob('C02.R8', '%s|repeat-protocol' % f.name, ok, 'repeat r >= 1: exactly r invocations then removal; repeat 0: never removed' if ok else
+           'replaying the repeat tests gives invocations-before-removal %s for repeat 0..3 (99 = never removed, -1 = count wraps below 0) instead of {0: never, 1: 1, 2: 2, 3: 3}: '
+           'a one-shot timer fires again, or a persistent one stops' % res, where=f.loc(c1[0][0]))
+    e = prog.fn1(TE + '::enable')
+    add = [st for st in e.calls() if st.get('fn') == 'addTimer']
+    if not add or len(add[0].get('args', [])) < 2:
+        raise AnalysisBroken('TimerEventImpl::enable: addTimer(interval, repeat, cb) not found')
+    a = e.s(e.strip_casts(add[0]['args'][1]))
+    while a is not None and a['k'] in ('ParenExpr', 'ImplicitCastExpr') and a.get('ch'):
+        a = e.s(e.strip_casts(a['ch'][0]))
+    if a is None or a['k'] != 'ConditionalOperator':
+        raise AnalysisBroken('TimerEventImpl::enable: the repeat argument is not `mode == kOneshot ? a : b`')
+    rel = q.edge_relation(e, a['ch'][0], 0)
+    one_first = rel is not None and rel[1] == '==' and any(x.endswith('kOneshot') for x in (rel[0], rel[2]))
+    per_first = rel is not None and ((rel[1] == '!=' and any(x.endswith('kOneshot') for x in (rel[0], rel[2]))) or (rel[1] == '==' and any(x.endswith('kPersist') for x in (rel[0], rel[2]))))
+    va, vb = (e.s(a['ch'][1]) or {}).get('cv'), (e.s(a['ch'][2]) or {}).get('cv')
+    if not (one_first or per_first) or va is None or vb is None:
+        raise AnalysisBroken('TimerEventImpl::enable: cannot read the repeat values of the two modes')
+    v_one, v_per = (va, vb) if one_first else (vb, va)
+    f1, fp = firings(v_one) if 0 <= v_one < 8 else None, firings(v_per) if 0 <= v_per < 8 else None
+    ctx.ob('C02.R8', '%s|oneshot-value' % e.name, f1 == 1, 'a one-shot timer is added with repeat %d: one invocation, then removed' % v_one if f1 == 1 else
+           'a one-shot timer is added with repeat %s, which the loop invokes %s' % (v_one, 'for ever' if f1 == 99 else '%s time(s)' % f1), where=e.loc(add[0]['i']))
+    ctx.ob('C02.R8', '%s|persist-value' % e.name, fp == 99, 'a persistent timer is added with repeat %d: never removed by the loop' % v_per if fp == 99 else
+           'a persistent timer is added with repeat %s, which the loop removes after %s invocation(s)' % (v_per, fp), where=e.loc(add[0]['i']))
+
+
 def run(ctx):
     prog = extract('ALL' if ctx.tier == 'thorough' else SCOPE)
     ctx.guard(r1_heap_protocol, ctx, prog)
@@ -386,4 +458,5 @@ def run(ctx):
     ctx.guard(r4, ctx, prog)
     ctx.guard(r5_r6, ctx, prog)
     ctx.guard(r7, ctx, prog)
+    ctx.guard(r8, ctx, prog)
     return prog
